@@ -345,6 +345,45 @@ fn time_total(s: &str, fmt: Option<&str>, fam: &str, ctx: &mut Ctx) {
     }
 }
 
+/// the coarser units reach far beyond the four-digit years (seed round 10): the default formatter and the default
+/// parser still round-trip there (the calendar library writes such years with a sign)
+fn check_far_years(ctx: &mut Ctx) {
+    let fam = "datetime-far-years";
+    for y in [-262_143i32, -99_999, -10_000, -9_999, -1_000, -1, 0, 1, 99, 999, 1_000, 9_999, 10_000, 10_001, 12_345, 99_999, 100_000, 262_142] {
+        for (m, d, h, mi, sec, ns) in [(1u32, 1u32, 0u32, 0u32, 0u32, 0u32), (2, 28, 12, 34, 56, 789_000_000), (12, 31, 23, 59, 59, 999_999_000)] {
+            let c = match NaiveDate::from_ymd_opt(y, m, d).and_then(|x| x.and_hms_nano_opt(h, mi, sec, ns)) {
+                Some(c) => c,
+                None => continue,
+            };
+            ctx.states += 1;
+            ctx.fam(fam).states += 1;
+            ctx.nontrivial(fam, hash_bytes(c.to_string().as_bytes()));
+            for u in 0..3u8 {
+                let t = match ts_of(u, &c) {
+                    Some(t) => t,
+                    None => continue,
+                };
+                ctx.transitions += 1;
+                let text = by_unit!(u, U => catch(|| DateTime::<U>::new(t).strftime(None)));
+                let text = match text {
+                    Outcome::Ok(t) => t,
+                    Outcome::Panic(m) => {
+                        viol(ctx, "strftime(None) (far year)", None, json!({"family": fam, "unit": UNITS[u as usize], "t": t}), "a text".into(), format!("PANIC({})", truncate(&m, 100)));
+                        continue;
+                    }
+                };
+                let r = dt_parse(u, &text, None);
+                ctx.eval(fam, hash_bytes(format!("{r:?}").as_bytes()));
+                if !matches!(r, Outcome::Ok(Ok(g)) if g == t) {
+                    viol(ctx, "parse(strftime(t)) == t (far year)", None, json!({"family": fam, "unit": UNITS[u as usize], "t": t, "text": text}), format!("{t}"), format!("{r:?}"));
+                } else {
+                    ctx.traces += 1;
+                }
+            }
+        }
+    }
+}
+
 fn check_time_parse(ctx: &mut Ctx, max_len: usize) {
     let fam = "time";
     for h in [0u32, 1, 12, 23] {
@@ -428,6 +467,7 @@ fn main() {
                 let r = TimeDelta::parse(input);
                 let _ = r;
             }
+            "datetime-far-years" => check_far_years(&mut ctx),
             f if f.starts_with("datetime") => {
                 let u = UNITS.iter().position(|x| Some(*x) == case["unit"].as_str()).unwrap_or(3) as u8;
                 dt_total(u, input, case["format"].as_str().or(case["format_given"].as_str()), "datetime-totality", &mut ctx);
@@ -554,11 +594,12 @@ fn main() {
         }
     }
     check_time_parse(&mut c, run.pick(3, 4));
+    check_far_years(&mut c);
     c.sample(json!({"parser": "TimeDelta::parse", "input": "-2y1mo-1w2d", "model": "months -23, ns (-7+2)*86400e9"}));
     c.sample(json!({"parser": "DateTime::parse", "input": "2024-02-29 12:34:56.789000000", "unit": "ms", "model": 1709210096789i64}));
     total.merge(c);
     let meta = Meta {
-        rule: "(a) every string of length 0..=L over the 14-character token alphabet plus overflow probes through TimeDelta::parse: a value or an error, never a panic; (b) well-formed duration words (all sequences of 1..3 signed terms over numbers {0,1,7,12,1000} x ten units, unit sequences of length 4..6 with position-determined numbers and alternating signs): months / nanoseconds equal the i128 sum of the terms, Err only on overflow; (c) every string of length <= Ld over a 12-character alphabet through DateTime::parse (default and explicit, also malformed, formats), every lattice instant written with strftime(None) and each of the 11 listed formats and parsed back at all four units (incl. pre-epoch), every single-character edit (delete / insert / substitute) of those texts for totality; (d) the same for Time::parse. Non-trivial = distinct input strings / instants. Also (DESIGN 5.15, 5.16): 16 caller-made formats written by strftime(Some(fmt)) and parsed back with the same format (datetime-caller-formats; the calendar library decides what the pair denotes); the edges of the nanosecond range among the instants.".into(),
+        rule: "(a) every string of length 0..=L over the 14-character token alphabet plus overflow probes through TimeDelta::parse: a value or an error, never a panic; (b) well-formed duration words (all sequences of 1..3 signed terms over numbers {0,1,7,12,1000} x ten units, unit sequences of length 4..6 with position-determined numbers and alternating signs): months / nanoseconds equal the i128 sum of the terms, Err only on overflow; (c) every string of length <= Ld over a 12-character alphabet through DateTime::parse (default and explicit, also malformed, formats), every lattice instant written with strftime(None) and each of the 11 listed formats and parsed back at all four units (incl. pre-epoch), every single-character edit (delete / insert / substitute) of those texts for totality; (d) the same for Time::parse. Non-trivial = distinct input strings / instants. Also (DESIGN 5.15, 5.16): 16 caller-made formats written by strftime(Some(fmt)) and parsed back with the same format (datetime-caller-formats; the calendar library decides what the pair denotes); the edges of the nanosecond range among the instants. Round 9 (DESIGN 5.18): every single-character edit (delete / insert / substitute, characters of 1, 2, 3 and 4 bytes) of well-formed time-of-day texts with fractions of 0..12 digits (time-edits) and of well-formed duration texts (timedelta-edits); the date-time edits insert 3- and 4-byte characters too.".into(),
         bounds: json!({"timedelta_totality_len": td_len, "datetime_totality_len": dt_len, "instants": inst.len(), "instants_with_all_single_edits": n_edit, "formats": FORMATS}),
         assumptions: vec!["lenient but total parses (\"\", \"5\", \"1d2\", \"d\") are accepted: the property only forbids panics and wrong values for well-formed words (DESIGN 5.6)".into(), "chrono is the oracle for calendar values".into()],
         exhaustive: true,
